@@ -298,6 +298,34 @@ fn cli_family(run: &Run) {
         jobs.push(("TargetOsOdd".into(), ok.clone(), lang, false, None, vec!["--target-os".into(), "".into()]));
         jobs.push(("DanglingSymlink-L".into(), ok.clone(), lang, true, None, vec!["-L".into()]));
     }
+    // configuration-level faults (odd but loadable typeshare.toml) and odd pre-existing content of the output location
+    {
+        let unit_src = b"#[typeshare]\npub struct IdHolder { pub user_id: u8, pub nothing: (), pub at: Option<Vec<IdHolder>> }\n#[typeshare]\n#[serde(tag = \"t\", content = \"c\")]\npub enum IdEvent { UrlSeen(IdHolder), Http { id: u8 } }\n".to_vec();
+        let odd_cfgs: [(&str, &str); 6] = [
+            ("OddConfig/empty-acronym-entry", "[go]\npackage = \"p\"\nuppercase_acronyms = [\"ID\", \"\", \"url\"]\n"),
+            ("OddConfig/acronym-is-whole-name", "[go]\npackage = \"p\"\nuppercase_acronyms = [\"IdHolder\", \"I\", \"d\"]\n"),
+            ("OddConfig/empty-mapping-key-and-value", "[typescript.type_mappings]\n\"\" = \"\"\n[kotlin.type_mappings]\n\"\" = \"\"\n[swift.type_mappings]\n\"\" = \"\"\n[scala.type_mappings]\n\"\" = \"\"\n[go.type_mappings]\n\"\" = \"\"\n[python.type_mappings]\n\"\" = \"\"\n[go]\npackage = \"p\"\n"),
+            ("OddConfig/empty-decorators-and-constraints", "[swift]\ndefault_decorators = [\"\", \" \"]\ndefault_generic_constraints = [\"\"]\ncodablevoid_constraints = [\"\"]\n[go]\npackage = \"p\"\n"),
+            ("OddConfig/odd-prefixes-and-packages", "[swift]\nprefix = \" \"\n[kotlin]\nprefix = \"9\"\npackage = \"..\"\nmodule_name = \"\"\n[scala]\npackage = \".\"\nmodule_name = \".\"\n[go]\npackage = \" \"\n"),
+            ("OddConfig/unknown-sections-and-keys", "[cobol]\nx = 1\n[swift]\nnot_a_key = true\n[go]\npackage = \"p\"\n"),
+        ];
+        for (tag, toml) in odd_cfgs {
+            for lang in ALL_LANGS {
+                for folder in [false, true] {
+                    let files = vec![("c1/src/lib.rs".to_string(), unit_src.clone()), ("cfg/odd.toml".to_string(), toml.as_bytes().to_vec())];
+                    jobs.push((tag.to_string(), files, lang, folder, None, vec!["-c".into(), "{TREE}/cfg/odd.toml".into()]));
+                }
+            }
+        }
+        for (tag, pre) in [("PreexistingOutput/empty-files", 0u8), ("PreexistingOutput/one-byte-files", 1u8), ("PreexistingOutput/directories-in-the-way", 2u8)] {
+            for lang in ALL_LANGS {
+                for folder in [false, true] {
+                    let files = vec![("the_crate/src/lib.rs".to_string(), unit_src.clone())];
+                    jobs.push((format!("{tag}"), files, lang, folder, None, vec![format!("{{PRE{pre}}}")]));
+                }
+            }
+        }
+    }
     // many files: more per-file results than the capacity of the result channel (100)
     {
         let mut many: Vec<(String, Vec<u8>)> = vec![];
@@ -329,10 +357,26 @@ fn cli_family(run: &Run) {
                     }
                     let cfg = Cfg::plain();
                     let mut args = if extra.iter().any(|a| a == "--scala-package") { vec!["--lang".to_string(), lang.name().to_string()] } else { cli::lang_args(lang, &cfg) };
-                    args.extend(extra.iter().cloned());
+                    args.extend(extra.iter().filter(|a| !a.starts_with("{PRE")).map(|a| a.replace("{TREE}", &tree.to_string_lossy())));
                     let out = root.join("out");
                     std::fs::create_dir_all(&out).unwrap();
                     let out_path = if folder { out.clone() } else { out.join(format!("out.{}", lang.ext())) };
+                    if let Some(pre) = extra.iter().find(|a| a.starts_with("{PRE")) {
+                        // what an interrupted run, a build-system placeholder or a careless mkdir leaves behind
+                        let stem = match lang {
+                            Lang::Swift => "TheCrate".to_string(),
+                            _ => "the_crate".to_string(),
+                        };
+                        let names = if folder { vec![format!("{stem}.{}", lang.ext()), "Codable.swift".to_string()] } else { vec![format!("out.{}", lang.ext())] };
+                        for n in names {
+                            let p = out.join(&n);
+                            match pre.as_str() {
+                                "{PRE0}" => std::fs::write(&p, b"").unwrap(),
+                                "{PRE1}" => std::fs::write(&p, b"\n").unwrap(),
+                                _ => std::fs::create_dir_all(&p).unwrap(),
+                            }
+                        }
+                    }
                     args.push(if folder { "-d".into() } else { "-o".into() });
                     args.push(out_path.to_string_lossy().into_owned());
                     if tag == "TargetOsOdd" {
@@ -346,6 +390,9 @@ fn cli_family(run: &Run) {
                     run.count_eval(1);
                     run.nontrivial(hash_of(&("cli", &tag, lang, folder)));
                     run.label(&format!("cli/outcome/{}", if r.timed_out { "timeout".to_string() } else { format!("exit={:?}", r.code) }));
+                    if r.wall_ms > 2000 {
+                        run.label(&format!("cli/slow(>2s)/{tag}"));
+                    }
                     let out_exists = if folder { !cli::read_tree(&out).is_empty() } else { out_path.exists() };
                     if let Some((rel, detail)) = classify_cli(&r, out_exists, names_file.as_deref()) {
                         let lang_part = if rel.contains("language/") || tag.starts_with("EmptyPackage") || tag.starts_with("Const") { format!("/{}", lang.short()) } else { String::new() };
@@ -366,7 +413,7 @@ fn cli_family(run: &Run) {
 
 pub fn run(run: &Run) {
     ts::install_panic_hook();
-    run.set_rule("(a) in-process: a supported program of 0-3 items plus one tagged edge feature from a catalogue of syntactically valid Rust at the edge of the supported grammar (empty tuple structs/variants, containers without arguments x 14 container names, unknown nested typeshare(..) lists, non-ASCII / underscore-only identifiers x 9 rename_all rules, bare `use`, consts, DateTime, generic map keys, exotic type syntax, odd attribute forms, odd cfg forms, non-items, empty bodies, odd renames, deep nesting, self-referential aliases, duplicate names, keyword type names, ...), before or after the program, x 6 languages x configurations incl. empty packages; oracle: no unwind out of parse / reconcile / any back end. (b) real binary: every catalogue edge x language x {single file, folder} plus raw-file faults (unparsable, invalid UTF-8, empty, no annotated item, files outside src, BOM/CRLF, dangling symlink with -L, a directory named x.rs, empty package options); oracle: terminates within the watchdog with exit 0, or exit != 0 with a diagnostic (naming the offending file where one exists); never a panic message, exit 101, signal or hang. Non-trivial: every case carries an edge tag; distinct by (tag, parameters, language, mode).");
+    run.set_rule("(a) in-process: a supported program of 0-3 items plus one tagged edge feature from a catalogue of syntactically valid Rust at the edge of the supported grammar (empty tuple structs/variants, containers without arguments x 14 container names, unknown nested typeshare(..) lists, non-ASCII / underscore-only identifiers x 9 rename_all rules, bare `use`, consts, DateTime, generic map keys, exotic type syntax, odd attribute forms, odd cfg forms, non-items, empty bodies, odd renames, deep nesting, self-referential aliases, duplicate names, keyword type names, ...), before or after the program, x 6 languages x configurations incl. empty packages; oracle: no unwind out of parse / reconcile / any back end. (b) real binary: every catalogue edge x language x {single file, folder} plus raw-file faults (unparsable, invalid UTF-8, empty, no annotated item, files outside src, BOM/CRLF, dangling symlink with -L, a directory named x.rs, empty package options), odd but loadable typeshare.toml files (empty acronym / mapping / decorator entries, odd prefixes and packages, unknown keys), odd pre-existing content of the output location (empty files, one-byte files, directories in the way; incl. Codable.swift); oracle: terminates within the watchdog with exit 0, or exit != 0 with a diagnostic (naming the offending file where one exists); never a panic message, exit 101, signal or hang. Non-trivial: every case carries an edge tag; distinct by (tag, parameters, language, mode).");
     run.assume("a watchdog of 10 s (normal run time ~5 ms) decides 'hang'; panic sites are keyed by file::function, resolved from the reported line, so unrelated line shifts do not rename a finding");
     replay_regress(run, &C07);
     search(run, &C07, run.tier.pick(20_000, 400_000));
